@@ -19,20 +19,24 @@ package roaring
 // receiver is left untouched and a fresh container is returned.
 //@ contract (*Container).arrayToBitmap props C01,C02,C03
 //@   requires wfArrN(c)
+//@   modifies c.flags, c.pointer, c.len, c.cap, c.data, c.typeID, c.n, c.$arr, c.$runs, c.$bm, elems(c.$arr), elems(c.$runs), elems(c.$bm)
+//@   ensures result != nil ==> (result.$arr.ref == 0 || result.$arr.ref == old(c.$arr.ref) || fresh(result.$arr)) && (result.$runs.ref == 0 || result.$runs.ref == old(c.$runs.ref) || fresh(result.$runs)) && (result.$bm.ref == 0 || result.$bm.ref == old(c.$bm.ref) || fresh(result.$bm))
 //@   ensures result != nil && wfBm(result) && result.n == old(c.n)
-//@   ensures forall x :: 0 <= x && x < 65536 ==> (memBm(result.$bm, x) <==> old(memArr(c.$arr, x)))
+//@   ensures forall x :: u16(x) ==> (memBm(result.$bm, x) <==> old(memArr(c.$arr, x)))
 //@   ensures (old(c.flags) & 2) != 0 ==> fresh(result) && result.flags == 0
 //@   ensures (old(c.flags) & 2) != 0 ==> c.typeID == 1 && c.$arr == old(c.$arr)
 //@   ensures (old(c.flags) & 2) != 0 ==> unchanged(c.$arr)
 //@   ensures (old(c.flags) & 2) == 0 ==> result == c
 //@   ensures (result.flags & 2) == 0 || fresh(result)
 //@   loop 1 invariant len(bitmap) == 1024 && fresh(bitmap) && bitmap.off == 0 && 0 <= $i + 1 && $i + 1 <= len(c.$arr) && unchanged(c.$arr)
-//@   loop 1 invariant forall x :: 0 <= x && x < 65536 ==> (bit(bitmap[x / 64], x % 64) <==> (exists k :: 0 <= k && k <= $i && c.$arr[k] == x))
+//@   loop 1 invariant forall x :: u16(x) ==> (bit(bitmap[x / 64], x % 64) <==> (exists k :: 0 <= k && k <= $i && c.$arr[k] == x))
 //@   loop 1 decreases len(c.$arr) - $i
 
 // arrayAdd: adds exactly v; converts to a bitmap container at ArrayMaxSize.
 //@ contract (*Container).arrayAdd props C01,C02,C03
 //@   requires wfArrN(c)
+//@   modifies c.flags, c.pointer, c.len, c.cap, c.data, c.typeID, c.n, c.$arr, c.$runs, c.$bm, elems(c.$arr), elems(c.$runs), elems(c.$bm)
+//@   ensures result0 != nil ==> (result0.$arr.ref == 0 || result0.$arr.ref == old(c.$arr.ref) || fresh(result0.$arr)) && (result0.$runs.ref == 0 || result0.$runs.ref == old(c.$runs.ref) || fresh(result0.$runs)) && (result0.$bm.ref == 0 || result0.$bm.ref == old(c.$bm.ref) || fresh(result0.$bm))
 //@   ensures result0 != nil
 //@   ensures result1 <==> !old(memArr(c.$arr, v))
 //@   ensures !result1 ==> result0 == c && result0.n == old(c.n) && c.$arr == old(c.$arr) && unchanged(c.$arr) && c.typeID == 1
@@ -41,24 +45,26 @@ package roaring
 //@   ensures old(c.n) >= 4096 && result1 ==> wfBm(result0)
 //@   ensures mem(result0, v)
 //@   ensures old(c.n) < 4096 ==> (forall i :: 0 <= i && i < old(len(c.$arr)) ==> (result0.$arr[i] == old(c.$arr[i]) || result0.$arr[i+1] == old(c.$arr[i])))
-//@   ensures old(c.n) < 4096 ==> (forall x :: 0 <= x && x < 65536 && old(memArr(c.$arr, x)) ==> memArr(result0.$arr, x))
-//@   ensures forall x :: 0 <= x && x < 65536 && old(memArr(c.$arr, x)) ==> mem(result0, x)
-//@   ensures forall x :: 0 <= x && x < 65536 && mem(result0, x) ==> (x == v || old(memArr(c.$arr, x)))
+//@   ensures old(c.n) < 4096 ==> (forall x :: u16(x) && old(memArr(c.$arr, x)) ==> memArr(result0.$arr, x))
+//@   ensures forall x :: u16(x) && old(memArr(c.$arr, x)) ==> mem(result0, x)
+//@   ensures forall x :: u16(x) && mem(result0, x) ==> (x == v || old(memArr(c.$arr, x)))
 //@   ensures (old(c.flags) & 2) != 0 && result1 ==> fresh(result0)
 
 // arrayRemove: removes exactly v; the last value leaves a nil container.
 //@ contract (*Container).arrayRemove props C01,C02,C03
 //@   requires wfArrN(c)
+//@   modifies c.flags, c.pointer, c.len, c.cap, c.data, c.typeID, c.n, c.$arr, c.$runs, c.$bm, elems(c.$arr), elems(c.$runs), elems(c.$bm)
+//@   ensures result0 != nil ==> (result0.$arr.ref == 0 || result0.$arr.ref == old(c.$arr.ref) || fresh(result0.$arr)) && (result0.$runs.ref == 0 || result0.$runs.ref == old(c.$runs.ref) || fresh(result0.$runs)) && (result0.$bm.ref == 0 || result0.$bm.ref == old(c.$bm.ref) || fresh(result0.$bm))
 //@   ensures result1 <==> old(memArr(c.$arr, v))
 //@   ensures !result1 ==> result0 == c && result0.n == old(c.n) && c.$arr == old(c.$arr) && unchanged(c.$arr) && c.typeID == 1
 //@   ensures result1 && old(c.n) == 1 ==> result0 == nil
 //@   ensures result1 && old(c.n) > 1 ==> result0 != nil && wfArrN(result0) && result0.n == old(c.n) - 1
 //@   ensures result0 != nil ==> !memArr(result0.$arr, v)
 //@   ensures result0 != nil && result1 ==> (forall i :: 0 <= i && i < len(result0.$arr) ==> (result0.$arr[i] == old(c.$arr[i]) || result0.$arr[i] == old(c.$arr[i+1])))
-//@   ensures result0 != nil ==> (forall x :: 0 <= x && x < 65536 && memArr(result0.$arr, x) ==> old(memArr(c.$arr, x)))
+//@   ensures result0 != nil ==> (forall x :: u16(x) && memArr(result0.$arr, x) ==> old(memArr(c.$arr, x)))
 //@   ensures result0 != nil && result1 ==> (forall i :: 0 <= i && i < old(len(c.$arr)) && old(c.$arr[i]) < v ==> result0.$arr[i] == old(c.$arr[i]))
 //@   ensures result0 != nil && result1 ==> (forall i :: 1 <= i && i < old(len(c.$arr)) && old(c.$arr[i]) > v ==> result0.$arr[i-1] == old(c.$arr[i]))
-//@   ensures result0 != nil ==> (forall x :: 0 <= x && x < 65536 && x != v && old(memArr(c.$arr, x)) ==> memArr(result0.$arr, x))
+//@   ensures result0 != nil ==> (forall x :: u16(x) && x != v && old(memArr(c.$arr, x)) ==> memArr(result0.$arr, x))
 //@   ensures (old(c.flags) & 2) != 0 && result1 && result0 != nil ==> fresh(result0)
 
 // bitmapToArray enumerates the set bits with the lowest-set-bit idiom
@@ -67,27 +73,32 @@ package roaring
 //@ contract (*Container).bitmapToArray trusted props C01,C02,C03
 //@   requires wfBm(c) && 0 <= c.n && c.n <= 65536
 //@   ensures result != nil && wfArrN(result) && result.n == old(c.n)
-//@   ensures forall x :: 0 <= x && x < 65536 ==> (memArr(result.$arr, x) <==> old(memBm(c.$bm, x)))
+//@   ensures forall x :: u16(x) ==> (memArr(result.$arr, x) <==> old(memBm(c.$bm, x)))
 //@   ensures (old(c.flags) & 2) != 0 ==> fresh(result) && result.flags == 0 && c.typeID == 2 && c.$bm == old(c.$bm) && unchanged(c.$bm)
 //@   ensures (old(c.flags) & 2) == 0 ==> result == c
+//@   ensures result != nil ==> (result.$arr.ref == 0 || result.$arr.ref == old(c.$arr.ref) || fresh(result.$arr)) && (result.$runs.ref == 0 || result.$runs.ref == old(c.$runs.ref) || fresh(result.$runs)) && (result.$bm.ref == 0 || result.$bm.ref == old(c.$bm.ref) || fresh(result.$bm))
 //@   modifies c.typeID, c.flags, c.$arr, c.n, c.len, c.cap, c.pointer, c.data
 
 // bitmapRemove: removes exactly v; the last value leaves a nil container; at
 // ArrayMaxSize the container is converted to an array.
 //@ contract (*Container).bitmapRemove props C01,C02,C03
 //@   requires wfBm(c) && 1 <= c.n && c.n <= 65536
+//@   modifies c.flags, c.pointer, c.len, c.cap, c.data, c.typeID, c.n, c.$arr, c.$runs, c.$bm, elems(c.$arr), elems(c.$runs), elems(c.$bm)
+//@   ensures result0 != nil ==> (result0.$arr.ref == 0 || result0.$arr.ref == old(c.$arr.ref) || fresh(result0.$arr)) && (result0.$runs.ref == 0 || result0.$runs.ref == old(c.$runs.ref) || fresh(result0.$runs)) && (result0.$bm.ref == 0 || result0.$bm.ref == old(c.$bm.ref) || fresh(result0.$bm))
 //@   ensures result1 <==> old(memBm(c.$bm, v))
 //@   ensures !result1 ==> result0 == c && result0.n == old(c.n) && c.$bm == old(c.$bm) && unchanged(c.$bm) && c.typeID == 2
 //@   ensures result1 && old(c.n) == 1 ==> result0 == nil
 //@   ensures result1 && old(c.n) > 1 ==> result0 != nil && result0.n == old(c.n) - 1 && (wfBm(result0) || wfArrN(result0))
 //@   ensures result0 != nil ==> !mem(result0, v)
-//@   ensures result0 != nil ==> (forall x :: 0 <= x && x < 65536 && x != v ==> (mem(result0, x) <==> old(memBm(c.$bm, x))))
+//@   ensures result0 != nil ==> (forall x :: u16(x) && x != v ==> (mem(result0, x) <==> old(memBm(c.$bm, x))))
 //@   ensures (old(c.flags) & 2) != 0 && result1 && result0 != nil ==> fresh(result0)
 
 // runAdd: adds exactly v to a run container (extend a run, merge two runs, or
 // insert a new one).
 //@ contract (*Container).runAdd props C01,C02,C03
 //@   requires wfRuns(c) && 0 <= c.n && c.n < 2147483647 && (len(c.$runs) == 0 ==> c.n == 0)
+//@   modifies c.flags, c.pointer, c.len, c.cap, c.data, c.typeID, c.n, c.$arr, c.$runs, c.$bm, elems(c.$arr), elems(c.$runs), elems(c.$bm)
+//@   ensures result0 != nil ==> (result0.$arr.ref == 0 || result0.$arr.ref == old(c.$arr.ref) || fresh(result0.$arr)) && (result0.$runs.ref == 0 || result0.$runs.ref == old(c.$runs.ref) || fresh(result0.$runs)) && (result0.$bm.ref == 0 || result0.$bm.ref == old(c.$bm.ref) || fresh(result0.$bm))
 //@   ensures result0 != nil && isRun(result0)
 //@   ensures result1 <==> !old(memRuns(c.$runs, v))
 //@   ensures !result1 ==> result0 == c && result0.n == old(c.n) && c.$runs == old(c.$runs) && unchanged(c.$runs) && c.typeID == 3
@@ -96,12 +107,14 @@ package roaring
 //@   ensures memRuns(result0.$runs, v)
 //@   ensures sortedRuns(result0.$runs)
 //@   ensures forall i :: 0 <= i && i < old(len(c.$runs)) ==> ((i < len(result0.$runs) && covers(result0.$runs[i], old(c.$runs[i]))) || (i >= 1 && i - 1 < len(result0.$runs) && covers(result0.$runs[i-1], old(c.$runs[i]))) || (i + 1 < len(result0.$runs) && covers(result0.$runs[i+1], old(c.$runs[i]))))
-//@   ensures forall x :: 0 <= x && x < 65536 && old(memRuns(c.$runs, x)) ==> memRuns(result0.$runs, x)
-//@   ensures forall x :: 0 <= x && x < 65536 && memRuns(result0.$runs, x) ==> (x == v || old(memRuns(c.$runs, x)))
+//@   ensures forall x :: u16(x) && old(memRuns(c.$runs, x)) ==> memRuns(result0.$runs, x)
+//@   ensures forall x :: u16(x) && memRuns(result0.$runs, x) ==> (x == v || old(memRuns(c.$runs, x)))
 
 // runRemove: removes exactly v from a run container (drop, shrink or split a run).
 //@ contract (*Container).runRemove props C01,C02,C03
 //@   requires wfRuns(c) && 1 <= c.n && c.n <= 65536
+//@   modifies c.flags, c.pointer, c.len, c.cap, c.data, c.typeID, c.n, c.$arr, c.$runs, c.$bm, elems(c.$arr), elems(c.$runs), elems(c.$bm)
+//@   ensures result0 != nil ==> (result0.$arr.ref == 0 || result0.$arr.ref == old(c.$arr.ref) || fresh(result0.$arr)) && (result0.$runs.ref == 0 || result0.$runs.ref == old(c.$runs.ref) || fresh(result0.$runs)) && (result0.$bm.ref == 0 || result0.$bm.ref == old(c.$bm.ref) || fresh(result0.$bm))
 //@   ensures result1 <==> old(memRuns(c.$runs, v))
 //@   ensures !result1 ==> result0 == c && result0.n == old(c.n) && c.$runs == old(c.$runs) && unchanged(c.$runs) && c.typeID == 3
 //@   ensures result1 && old(c.n) == 1 ==> result0 == nil
@@ -109,9 +122,9 @@ package roaring
 //@   ensures (old(c.flags) & 2) != 0 && result1 && result0 != nil ==> fresh(result0)
 //@   ensures result0 != nil ==> sortedRuns(result0.$runs)
 //@   ensures result0 != nil ==> !memRuns(result0.$runs, v)
-//@   ensures result0 != nil ==> (forall x :: 0 <= x && x < 65536 && memRuns(result0.$runs, x) ==> old(memRuns(c.$runs, x)))
+//@   ensures result0 != nil ==> (forall x :: u16(x) && memRuns(result0.$runs, x) ==> old(memRuns(c.$runs, x)))
 //@   ensures result0 != nil && result1 ==> (forall i :: 0 <= i && i < old(len(c.$runs)) ==> (old(c.$runs[i]).last < v ==> result0.$runs[i] == old(c.$runs[i])) && (old(c.$runs[i]).start > v ==> ((i < len(result0.$runs) && result0.$runs[i] == old(c.$runs[i])) || (i >= 1 && result0.$runs[i-1] == old(c.$runs[i])) || (i + 1 < len(result0.$runs) && result0.$runs[i+1] == old(c.$runs[i])))))
-//@   ensures result0 != nil ==> (forall x :: 0 <= x && x < 65536 && x != v && old(memRuns(c.$runs, x)) ==> memRuns(result0.$runs, x))
+//@   ensures result0 != nil ==> (forall x :: u16(x) && x != v && old(memRuns(c.$runs, x)) ==> memRuns(result0.$runs, x))
 
 // wfMut: representation well-formed and n coherent where the kernels rely on it.
 //@ spec wfMut(c *Container) = (wfArrN(c) || (wfBm(c) && 1 <= c.n && c.n <= 65536) || (wfRuns(c) && 0 <= c.n && c.n <= 65536 && (len(c.$runs) == 0 ==> c.n == 0)))
@@ -120,13 +133,15 @@ package roaring
 // the `changed` result is exact and n moves by exactly one when it is true.
 //@ contract (*Container).add props C01,C02,C03
 //@   requires c == nil || wfMut(c)
+//@   modifies c.flags, c.pointer, c.len, c.cap, c.data, c.typeID, c.n, c.$arr, c.$runs, c.$bm, elems(c.$arr), elems(c.$runs), elems(c.$bm)
+//@   ensures newC != nil ==> (newC.$arr.ref == 0 || newC.$arr.ref == old(c.$arr.ref) || fresh(newC.$arr)) && (newC.$runs.ref == 0 || newC.$runs.ref == old(c.$runs.ref) || fresh(newC.$runs)) && (newC.$bm.ref == 0 || newC.$bm.ref == old(c.$bm.ref) || fresh(newC.$bm))
 //@   ensures newC != nil && mem(newC, v)
 //@   ensures added <==> !old(mem(c, v))
 //@   ensures c != nil ==> newC.n == old(c.n) + (added ? 1 : 0)
 //@   ensures c == nil ==> newC.n == 1
 //@   ensures !added ==> newC == c
-//@   ensures forall x :: 0 <= x && x < 65536 && old(mem(c, x)) ==> mem(newC, x)
-//@   ensures forall x :: 0 <= x && x < 65536 && mem(newC, x) ==> (x == v || old(mem(c, x)))
+//@   ensures forall x :: u16(x) && old(mem(c, x)) ==> mem(newC, x)
+//@   ensures forall x :: u16(x) && mem(newC, x) ==> (x == v || old(mem(c, x)))
 //@   ensures c != nil && (old(c.flags) & 2) != 0 && added ==> fresh(newC)
 
 //@ contract (*Container).remove props C01,C02,C03
@@ -134,13 +149,15 @@ package roaring
 // nil for the last value relies on; it is a precondition here, established by
 // the +1/-1 postconditions of the kernels along any history that starts coherent.)
 //@   requires c == nil || (wfMut(c) && c.n >= 1)
-//@   requires isBm(c) && c.n == 1 ==> (forall x, y :: 0 <= x && x < 65536 && 0 <= y && y < 65536 && memBm(c.$bm, x) && memBm(c.$bm, y) ==> x == y)
+//@   requires isBm(c) && c.n == 1 ==> (forall x, y :: u16(x) && 0 <= y && y < 65536 && memBm(c.$bm, x) && memBm(c.$bm, y) ==> x == y)
 //@   requires isRun(c) && c.n == 1 ==> len(c.$runs) == 1 && c.$runs[0].start == c.$runs[0].last
+//@   modifies c.flags, c.pointer, c.len, c.cap, c.data, c.typeID, c.n, c.$arr, c.$runs, c.$bm, elems(c.$arr), elems(c.$runs), elems(c.$bm)
+//@   ensures newC != nil ==> (newC.$arr.ref == 0 || newC.$arr.ref == old(c.$arr.ref) || fresh(newC.$arr)) && (newC.$runs.ref == 0 || newC.$runs.ref == old(c.$runs.ref) || fresh(newC.$runs)) && (newC.$bm.ref == 0 || newC.$bm.ref == old(c.$bm.ref) || fresh(newC.$bm))
 //@   ensures removed <==> old(mem(c, v))
 //@   ensures !removed ==> newC == c
 //@   ensures removed && old(c.n) == 1 ==> newC == nil
 //@   ensures removed && old(c.n) > 1 ==> newC != nil && newC.n == old(c.n) - 1
 //@   ensures !mem(newC, v)
-//@   ensures forall x :: 0 <= x && x < 65536 && mem(newC, x) ==> old(mem(c, x))
-//@   ensures forall x :: 0 <= x && x < 65536 && x != v && old(mem(c, x)) ==> mem(newC, x)
+//@   ensures forall x :: u16(x) && mem(newC, x) ==> old(mem(c, x))
+//@   ensures forall x :: u16(x) && x != v && old(mem(c, x)) ==> mem(newC, x)
 //@   ensures c != nil && (old(c.flags) & 2) != 0 && removed && newC != nil ==> fresh(newC)
